@@ -107,6 +107,8 @@ pub enum LaneCtl {
     Map(MapOpText),
     /// `n` supply items `first..first+n`, each padded to at least `pad` bytes.
     Burst { first: u64, n: u32, pad: usize },
+    /// `n` supply items with an empty body (the Recon of unit / `Extant`).
+    Empties(u32),
     SyncMode(SyncMode),
     SyncStep(usize),
     FlushSyncs,
@@ -477,6 +479,16 @@ impl Lane {
                             break;
                         }
                         self.supply(supply_body(self.idx, first + i, pad)).await;
+                    }
+                }
+            }
+            LaneCtl::Empties(n) => {
+                if self.spec.kind == LK::Supply {
+                    for _ in 0..n {
+                        if self.failed() {
+                            break;
+                        }
+                        self.supply(Bytes::new()).await;
                     }
                 }
             }
